@@ -27,7 +27,11 @@ Section Electre.
   Definition electre_parse (cs : list crit) (rp : rawparams) : res mparams :=
     do ecs <- of_option (rp_electre rp) EMissing;
     do _ <- mapM (fun c => do ec <- of_option (mget (c_id c) ecs) EMissing; validate_ecrit ec) cs;
-    Ok (PElectre ecs (match rp_dist rp with Some d => d | None => default_dist end)).
+    (* a custom distillation function must not be negative on [0,1] (linear: at 0 and at 1) *)
+    match rp_dist rp with
+    | Some d => if nltb (lf_b d) nzero || nltb (nadd (lf_a d) (lf_b d)) nzero then Err EInvalid else Ok (PElectre ecs d)
+    | None => Ok (PElectre ecs default_dist)
+    end.
 
   (** ** per-criterion concordance / discordance: calculateElectreResult *)
   Definition electre_pair (c1 c2 : num) (c : crit) (ths : ecrit) : num * num :=
